@@ -43,6 +43,7 @@ BenignIdx(k) ==
     [] k = K_missing_some -> 9
     [] OTHER -> 1
 
+Bare2 == <<IntV(5), Str(<<97, 98, 99>>), Null, True, Obj(<<>>), Obj(<< <<<<97>>, IntV(1)>> >>)>>
 Family ==
        [kind : {"lit"}, i : 1..Len(L2), d : 1..Len(D2), t : {0}]
   \cup [kind : {"near"}, i : 1..Len(OpSeq), d : {1, 3}, t : 1..NTransforms]
@@ -51,6 +52,8 @@ Family ==
   \* an operation is an operation wherever it stands and however ill-formed its operand list is
   \cup [kind : {"wrong"}, i : 1..Len(OpSeq), d : {3}, t : {0}]
   \cup [kind : {"dispin"}, i : 1..Len(OpSeq), d : {3, 8}, t : 1..7]
+  \* the bracket-less spelling {"op": x}, x not an array, at the top and as an operand: still an operation
+  \cup [kind : {"bare", "barein"}, i : 1..Len(OpSeq), d : {3}, t : 1..Len(Bare2)]
   \cup [kind : {"collmap", "collfilter", "collreduce", "collmerge"}, i : {q \in 1..Len(L2) : L2[q].t = "a"}, d : {3, 4}, t : {0}]
 
 \* a count the operator does NOT accept (operators accepting every count get an accepted one)
@@ -67,6 +70,8 @@ RuleOf(cc) ==
     [] cc.kind = "nestreduce" -> Op(K_reduce, <<Arr(<<L2[cc.i]>>), VarOf(S_current), IntV(0)>>)
     [] cc.kind = "nestin" -> Op(K_in, <<L2[cc.i], Arr(<<IntV(2), L2[cc.i]>>)>>)
     [] cc.kind = "wrong" -> Op(OpSeq[cc.i], Benign(OpSeq[cc.i], WrongCount(OpSeq[cc.i]), 1))
+    [] cc.kind = "bare" -> Obj(<< <<OpSeq[cc.i], Bare2[cc.t]>> >>)
+    [] cc.kind = "barein" -> Op(K_notnot, <<Obj(<< <<OpSeq[cc.i], Bare2[cc.t]>> >>)>>)
     [] cc.kind = "dispin" ->
          LET inner == Obj(<< <<OpSeq[cc.i], A2[BenignIdx(OpSeq[cc.i])]>> >>) IN
          (CASE cc.t = 1 -> Op(K_some, <<inner, True>>)                       \* as the collection of a quantifier
@@ -135,6 +140,12 @@ DispatchedInEveryPosition ==
                    [] c.t \in {5, 6, 7} -> o.ok /\ SameValue(o.v, iv.v)
                    [] c.t = 2 -> (iv.v.t \in {"a", "z"} <=> o.ok)
                    [] c.t = 1 -> (iv.v.t \in {"a", "s", "z"} <=> o.ok)
+\* the bracket-less spelling is an operation too: never returned (or tested for truthiness) as a literal object -
+\* an operator that cannot take one operand makes it an error
+BareOperandIsStillAnOperation ==
+  phase = "done" /\ c.kind \in {"bare", "barein"} =>
+    LET inner == Obj(<< <<OpSeq[c.i], Bare2[c.t]>> >>)
+    IN IsOperation(inner) /\ (~ArityOK(OpSeq[c.i], 1) => ~Outcome(c).ok)
 ExportCases ==
   phase = "done" => Export(<<c.kind, c.i, c.d, c.t>>, RuleOf(c), DataOf(c), Outcome(c), <<"C02">>, Flags(FALSE, TRUE))
 =============================================================================
